@@ -7,6 +7,8 @@
     (`boundsOf`, `finish_one_vs_two`, `KindMatch`, `shapeOf`);
   * exact arithmetic `Rex`: closed form of the common tail `finish` (`finish_ok_rex`), containment of
     the mean, inclusion for a larger critical value; the same for `Proportion.finish` (`propShape`);
+    `ci_wilson` ends in the clamped `Proportion.finishWilson`, which at `Rex` equals `Proportion.finish`
+    on the Wilson numbers for every real critical value (`finishWilson_rex_eq`);
   * the vocabulary of the hypotheses on the external quantile routine: `CritMono`, `CritHalf`;
   * Wilson bounds monotone in `z` over all of ℝ (`lowerR_anti`, `upperR_mono`).
 -/
@@ -312,12 +314,22 @@ theorem pfinish_kind (conf : Confidence W) (m s : W) (I : Interval W)
   · exact ⟨_, h.2⟩
   · exact ⟨_, h.2⟩
 
+/-- the clamped tail of `ci_wilson` returns the same constructors as `Proportion.finish`: always
+    two-sided, the far end exactly `1` / `0` -/
+theorem pfinishWilson_kind (conf : Confidence W) (m s : W) (I : Interval W)
+    (h : Proportion.finishWilson conf m s = .ok I) : PropKindMatch conf I := by
+  cases conf <;> simp only [Proportion.finishWilson] at h <;> rw [liftI_new_ok_iff] at h
+  · exact ⟨_, _, h.2⟩
+  · exact ⟨_, h.2⟩
+  · exact ⟨_, h.2⟩
+
 /-- a successful `ci_wilson` passed the count tests and the probability test of `inverse_cdf`,
-    and is `finish` of the two Wilson numbers at the requested critical value -/
+    and is `finishWilson` (the two bounds clamped into `[0, 1]`, then `Interval::new`) of the two
+    Wilson numbers at the requested critical value -/
 theorem ciWilson_ok (crit : Crit W) (conf : Confidence W) (n k : ℕ) (I : Interval W)
     (h : ciWilson crit conf n k = .ok I) :
     2 ≤ k ∧ k + 2 ≤ n ∧ probOk conf.quantile = true ∧
-    Proportion.finish conf
+    Proportion.finishWilson conf
       (wilsonCentre (Scalar.ofNat n) (Scalar.ofNat k) (crit (.z conf.quantile)))
       (wilsonSpan (Scalar.ofNat n) (Scalar.ofNat k) (crit (.z conf.quantile))) = .ok I := by
   unfold ciWilson at h
@@ -330,10 +342,11 @@ theorem ciWilson_ok (crit : Crit W) (conf : Confidence W) (n k : ℕ) (I : Inter
     exact ⟨by omega, by omega, hp, hI⟩
   · simp [hp] at hz
 
-theorem ciWilson_eq_finish (crit : Crit W) (conf : Confidence W) (n k : ℕ) (hk : 2 ≤ k)
+/-- past the count tests and the probability test, `ci_wilson` is its clamped tail, any carrier -/
+theorem ciWilson_eq_finishWilson (crit : Crit W) (conf : Confidence W) (n k : ℕ) (hk : 2 ≤ k)
     (hkn : k + 2 ≤ n) (hp : probOk conf.quantile = true) :
     ciWilson crit conf n k =
-      Proportion.finish conf
+      Proportion.finishWilson conf
         (wilsonCentre (Scalar.ofNat n) (Scalar.ofNat k) (crit (.z conf.quantile)))
         (wilsonSpan (Scalar.ofNat n) (Scalar.ofNat k) (crit (.z conf.quantile))) := by
   have h1 : ¬ (k > n) := by omega
@@ -373,7 +386,7 @@ theorem ciZNormal_eq_finish (crit : Crit W) (conf : Confidence W) (n k : ℕ) (h
 
 theorem ciWilson_kind (crit : Crit W) (conf : Confidence W) (n k : ℕ) (I : Interval W)
     (h : ciWilson crit conf n k = .ok I) : PropKindMatch conf I :=
-  pfinish_kind conf _ _ I (ciWilson_ok crit conf n k I h).2.2.2
+  pfinishWilson_kind conf _ _ I (ciWilson_ok crit conf n k I h).2.2.2
 
 theorem ciZNormal_kind (crit : Crit W) (conf : Confidence W) (n k : ℕ) (I : Interval W)
     (h : ciZNormal crit conf n k = .ok I) : PropKindMatch conf I :=
@@ -829,7 +842,7 @@ theorem lowerR_anti (n k z₁ z₂ : ℝ) (hn : 0 < n) (hk0 : 0 ≤ k) (hkn : k 
   have := upperR_mono n k (-z₂) (-z₁) hn hk0 hkn (by linarith)
   rwa [upperR_neg, upperR_neg] at this
 
-/-- the three shapes `Proportion.finish` returns -/
+/-- the three shapes `Proportion.finish` / `Proportion.finishWilson` return -/
 def propShape (conf : Confidence Rex) (lo hi : ℝ) : Interval Rex :=
   match conf with
   | .twoSided _ => .twoSided ⟨lo⟩ ⟨hi⟩
@@ -890,6 +903,30 @@ theorem wilson_adm (conf : Confidence Rex) (n k : ℕ) (hn : 0 < n) (hkn : k ≤
   | upper l => exact (QSpec.upper_le_one n k z.val hn hkn).1
   | lower l => exact (QSpec.lower_nonneg n k z.val hn hkn).2
 
+/-- at exact arithmetic both Wilson numbers `centre ∓ span` are proportions whatever the sign of the
+    critical value (`QSpec.lower_nonneg`, `QSpec.upper_le_one`), so the clamp of `ci_wilson` is the
+    identity and its tail is `Proportion.finish` -/
+theorem finishWilson_rex_eq (conf : Confidence Rex) (n k : ℕ) (hn : 0 < n) (hkn : k ≤ n) (z : Rex) :
+    Proportion.finishWilson conf (wilsonCentre (Scalar.ofNat n : Rex) (Scalar.ofNat k) z)
+        (wilsonSpan (Scalar.ofNat n : Rex) (Scalar.ofNat k) z) =
+      Proportion.finish conf (wilsonCentre (Scalar.ofNat n : Rex) (Scalar.ofNat k) z)
+        (wilsonSpan (Scalar.ofNat n : Rex) (Scalar.ofNat k) z) := by
+  apply Proportion.finishWilson_eq_finish <;>
+    rw [Quantile.wilsonCentre_val, Quantile.wilsonSpan_val]
+  · exact (QSpec.lower_nonneg n k z.val hn hkn).1
+  · exact (QSpec.upper_le_one n k z.val hn hkn).2
+
+/-- `ci_wilson` at exact arithmetic, past the count tests and the probability test: the unclamped
+    tail (every oracle, no sign condition on the critical value) -/
+theorem ciWilson_eq_finish (crit : Crit Rex) (conf : Confidence Rex) (n k : ℕ) (hk : 2 ≤ k)
+    (hkn : k + 2 ≤ n) (hp : probOk conf.quantile = true) :
+    ciWilson crit conf n k =
+      Proportion.finish conf
+        (wilsonCentre (Scalar.ofNat n) (Scalar.ofNat k) (crit (.z conf.quantile)))
+        (wilsonSpan (Scalar.ofNat n) (Scalar.ofNat k) (crit (.z conf.quantile))) := by
+  rw [ciWilson_eq_finishWilson crit conf n k hk hkn hp,
+    finishWilson_rex_eq conf n k (by omega) (by omega)]
+
 /-- a successful `ci_wilson` at exact arithmetic: the shape of the kind with the Wilson ends; a
     two-sided success forces a non-negative critical value -/
 theorem ciWilson_ok_rex (crit : Crit Rex) (conf : Confidence Rex) (n k : ℕ) (I : Interval Rex)
@@ -898,6 +935,7 @@ theorem ciWilson_ok_rex (crit : Crit Rex) (conf : Confidence Rex) (n k : ℕ) (I
     I = propShape conf (lowerR n k (zOf crit conf)) (upperR n k (zOf crit conf)) ∧
     (conf.isTwoSided = true → 0 ≤ zOf crit conf) := by
   obtain ⟨hk, hkn, hp, hf⟩ := ciWilson_ok crit conf n k I h
+  rw [finishWilson_rex_eq conf n k (by omega) (by omega)] at hf
   obtain ⟨hI, hadm⟩ := pfinish_ok_rex conf _ _ I hf
   refine ⟨hk, hkn, hp, hI, fun ht => ?_⟩
   by_contra hz
